@@ -10,6 +10,10 @@ EXTENDS ClientLoop, Json, IOUtils
 
 Rec == ndJsonDeserialize(IOEnv.TRACE)
 
+\* Strict = TRUE: every step must also reproduce the public state of the client logged after it (EventLoop::pending,
+\* MqttState::inflight(), collision, ping flags).  Strict = FALSE (second stage, only after a strict rejection): only the
+\* outputs (events handed to the user, packets that reached the broker, errors) must be explained; TLC infers the state.
+CONSTANT Strict
 VARIABLES l,        \* next line of the trace
           dropped   \* the broker end of the current connection has been closed (not yet noticed by the client)
 tvars == <<vars, l, dropped>>
@@ -26,7 +30,7 @@ TReset ==
     /\ live' = {} /\ liveRel' = {} /\ unacked' = {} /\ sentOrder' = <<>> /\ carried' = <<>> /\ classOk' = TRUE
     /\ resumed' = FALSE /\ dupWrite' = FALSE /\ dropped' = FALSE
 
-VisMatch ==
+VisMatch == Strict =>
     /\ pending' = E.pending
     /\ s'.inflight = E.vis.inflight
     /\ s'.collision = E.vis.collision
